@@ -346,11 +346,10 @@ structure Plan where
 
 /-- descending sort with duplicates removed (`sorted(set(..), reverse=True)`) is done by the
     validator; the planner receives values in that order. -/
-def planFilter (f : Filter) (defaultLimit : Option Nat) : Option Plan :=
+def planShape (f : Filter) : Option (PlanIndex × List Bytes × List Bytes × Bool) :=
   -- empty lists make the planner skip the filter
   if f.ids == some [] || f.kinds == some [] || f.authors == some [] then none else
   if f.tags.any (fun t => t.2.isEmpty) then none else
-  let limit := match defaultLimit with | some (n+1) => some (n+1) | _ => f.limit
   let idM := (f.ids.getD []).map fun i => [0] ++ i
   let kindsB := (f.kinds.getD []).map fun k => be32 k
   let akM : List (Option Bytes) := (f.authors.getD []).flatMap fun a => kindsB.map fun kb => kb.map fun k => [4] ++ a ++ [0] ++ k
@@ -367,25 +366,28 @@ def planFilter (f : Filter) (defaultLimit : Option Nat) : Option Plan :=
   let tagM := (sortDesc pairs).map fun p => tagKey p.1 p.2
   let unopt (l : List (Option Bytes)) : List Bytes := l.filterMap id
   let overflow (l : List (Option Bytes)) : Bool := l.any (·.isNone)
-  let mk (idx : PlanIndex) (m : List Bytes) (m2 : List Bytes := []) (r : Bool := false) : Option Plan :=
-    some { filter := f, index := idx, mats := m, mats2 := m2, limit := limit, raises := r }
-  if f.ids.isSome then mk .ids idM
+  if f.ids.isSome then some (.ids, idM, [], false)
   else match base, f.tags with
     | none, [] =>
       -- date range scan; `not (query.since or query.until)` ⇒ no plan
-      if (f.since.getD 0 != 0) || (f.until_.getD 0 != 0) then mk .created [] else none
-    | some (bi, bm), [] => mk bi (unopt bm) [] (overflow bm)
-    | none, _ :: _ => mk .tags tagM
+      if (f.since.getD 0 != 0) || (f.until_.getD 0 != 0) then some (.created, [], [], false) else none
+    | some (bi, bm), [] => some (bi, unopt bm, [], overflow bm)
+    | none, _ :: _ => some (.tags, tagM, [], false)
     | some (bi, bm), _ :: _ =>
-      -- MultiIndex: sort by cardinality * len(mats), descending, stable
+      -- MultiIndex: sort by cardinality * len(matches), descending, stable
       let card : PlanIndex → Nat | .authorkinds => 20 | .tags => 100 | _ => 1
       let kb := card bi * bm.length
       let kt := 100 * tagM.length
-      if kb ≥ kt then mk (.multi bi .tags) (unopt bm) tagM (overflow bm)
-      else mk (.multi .tags bi) tagM (unopt bm) (overflow bm)
+      if kb ≥ kt then some (.multi bi .tags, unopt bm, tagM, overflow bm)
+      else some (.multi .tags bi, tagM, unopt bm, overflow bm)
 where
   sortDesc (l : List (Bytes × Bytes)) : List (Bytes × Bytes) :=
     (l.toArray.qsort (fun a b => b.1 < a.1 || (b.1 == a.1 && b.2 < a.2))).toList.eraseDups
+
+def planFilter (f : Filter) (defaultLimit : Option Nat) : Option Plan :=
+  (planShape f).map fun sh =>
+    { filter := f, index := sh.1, mats := sh.2.1, mats2 := sh.2.2.1,
+      limit := (match defaultLimit with | some (n+1) => some (n+1) | _ => f.limit), raises := sh.2.2.2 }
 
 /-- the compiled residual predicate (`compile_match_from_query`) evaluated on a stored record -/
 def residual (f : Filter) (e : Event) : Bool :=
@@ -422,6 +424,33 @@ def executePlan (s : Store) (p : Plan) : List Bytes :=
     match p.limit with
     | some n => hits.take n
     | none => hits
+
+/-! ### NIP-01 specification of filter matching (what C01/C02/C11/C12 are stated against) -/
+
+def hexDigitB (n : Nat) : Nat := if n < 10 then 48 + n else 87 + n
+
+/-- lowercase hex of a byte string, as ASCII bytes -/
+def toHexB (b : Bytes) : Bytes := b.flatMap fun x => [hexDigitB (x / 16), hexDigitB (x % 16)]
+
+/-- NIP-26 delegators named by the event's delegation tags -/
+def delegators (e : Event) : List Bytes :=
+  e.tags.filterMap fun t => if t.head? == some (ascii "delegation") && t.length > 1 then some (t.getD 1 []) else none
+
+/-- NIP-01 matching.  `strict = true`: the reading every implementation must honour (own pubkey,
+    timestamps strictly inside the window).  `strict = false`: the most generous reading the
+    property allows (NIP-26 delegator counts as author, bounds inclusive). -/
+def matchesSpec (strict : Bool) (f : Filter) (e : Event) : Bool :=
+  (match f.ids with | some l => l.contains e.id | none => true)
+  && (match f.authors with
+      | some l => l.contains e.pubkey || (!strict && (delegators e).any fun d => l.any fun a => toHexB a == d)
+      | none => true)
+  && (match f.kinds with | some l => l.contains e.kind | none => true)
+  && (match f.since with | some x => if strict then decide (x < e.createdAt) else decide (x ≤ e.createdAt) | none => true)
+  && (match f.until_ with | some x => if strict then decide (e.createdAt < x) else decide (e.createdAt ≤ x) | none => true)
+  && f.tags.all fun t => e.tags.any fun tg => tg.head? == some t.1 && tg.length > 1 && t.2.contains (tg.getD 1 [])
+
+/-- the stored events -/
+def storedEvents (s : Store) : List Event := s.filterMap (·.2)
 
 /-- is the delivery order of this plan unspecified (Python set iteration)? -/
 def Plan.unordered (p : Plan) : Bool := match p.index with | .multi _ _ => true | _ => false
